@@ -1,5 +1,5 @@
 (* Request decoding / observation encoding for the registry state machine.
-   op "history": [class table; number of slots; operations; observed classes] -> one observation per step
+   op "history": [class table; number of slots; operations; observed classes; unobserved prefix length]\n   -> one observation per observed step
    (DESIGN.md section 6, "Correspondence for histories"). *)
 From Coq Require Import String List NArith ZArith Bool Arith.
 From DSD Require Import Base.Str Base.Errors Base.Val Model.ComplexUtils Model.RegStr Model.Heap Model.Registry.
@@ -157,27 +157,32 @@ Definition hand_out (handed : list nat) (o : out) : list nat :=
   | _ => handed
   end.
 
-Fixpoint run_history (ct : ctable) (watch : list nat) (st : state) (handed : list nat) (ops : list op) : list val :=
+(* the first `quiet` steps (a fixed set-up prefix) are executed but not observed *)
+Fixpoint run_history (ct : ctable) (watch : list nat) (quiet : nat) (st : state) (handed : list nat)
+    (ops : list op) : list val :=
   match ops with
   | [] => []
   | o :: r =>
       let '(st', out) := step ct st o in
       let handed' := hand_out handed out in
-      observe ct watch st' handed' out :: run_history ct watch st' handed' r
+      match quiet with
+      | S q => run_history ct watch q st' handed' r
+      | 0 => observe ct watch st' handed' out :: run_history ct watch 0 st' handed' r
+      end
   end.
 
 Definition dispatch_registry (op : pstr) (a : val) : option val :=
   if op_is' op "history" then Some (or_bad (
-    match a with VList [ct; n; ops; watch] =>
+    match a with VList [ct; n; ops; watch; quiet] =>
       do ct <- as_listof as_cinfo ct; do n <- as_nat n; do ops <- as_listof as_op ops;
-      do watch <- as_listof as_nat watch;
-      Some (VList (run_history ct watch (init ct n) [] ops))
+      do watch <- as_listof as_nat watch; do quiet <- as_nat quiet;
+      Some (VList (run_history ct watch quiet (init ct n) [] ops))
     | _ => None end))
   else if op_is' op "histories" then Some (or_bad (
-    (* a batch of histories sharing class table, slots and observed classes *)
-    match a with VList [ct; n; hs; watch] =>
+    (* a batch of histories sharing class table, slots, observed classes and quiet prefix length *)
+    match a with VList [ct; n; hs; watch; quiet] =>
       do ct <- as_listof as_cinfo ct; do n <- as_nat n; do hs <- as_listof (as_listof as_op) hs;
-      do watch <- as_listof as_nat watch;
-      Some (VList (map (fun ops => VList (run_history ct watch (init ct n) [] ops)) hs))
+      do watch <- as_listof as_nat watch; do quiet <- as_nat quiet;
+      Some (VList (map (fun ops => VList (run_history ct watch quiet (init ct n) [] ops)) hs))
     | _ => None end))
   else None.
